@@ -35,7 +35,7 @@ COMPONENTS = dict(common.REAL_COMPONENTS, stub=common.REAL_COMPONENTS["stub"] + 
 ASSUMPTIONS = ["calls in which a user callback (attempt hook, classifier, strategy) raises are only held to R1 (exactly one record)",
                "GeneratorExit and nested policy errors are C08's domain and not generated",
                "sampling, not proof"]
-BUDGETS = {"quick": (20000, 40), "thorough": (1200000, 280)}
+BUDGETS = {"quick": (60000, 90), "thorough": (2500000, 285)}
 
 
 def gen(seed, tier="quick"):
